@@ -2,6 +2,9 @@ import A2Verif.Model.Hex
 import A2Verif.Model.Robust
 import A2Verif.Model.RobustWoz
 import A2Verif.Model.RobustDetok
+import A2Verif.Model.RobustFatChain
+import A2Verif.Model.RobustImd
+import A2Verif.Model.RobustMg2
 /-!
 driver family `c12`: outcome class (`ok`/`err`/`panic`) of the modelled parsing fronts *for the code as it is
 now* (models selected by `A2Verif.Gen.C12Flags`).
@@ -11,6 +14,9 @@ now* (models selected by `A2Verif.Gen.C12Flags`).
 * `c12 fatmount <hex of sector bytes 0..64> <hex of bytes 510,511>` → class of `fat::Disk::test_img` followed by
   `fat::Disk::from_img` on an image whose sector 0 is those bytes with zeros in between (`err` = not FAT)
 * `c12 woz2 <hex of the file>` → class of `Woz2::from_bytes`
+* `c12 fatget <typ> <n> <hex of the FAT buffer>` → `ok <value>` / `panic` of `bios::fat::get_cluster`
+* `c12 mg2 <hex of the first 64 bytes> <file length> <0|1 nibble track 0 solvable>` → class of `Dot2mg::from_bytes`
+* `c12 imd <hex of the file>` → class of `Imd::from_bytes`
 * `c12 adetok <hex>` / `c12 idetok <hex>` → class of the Applesoft / Integer BASIC `detokenize` (default settings)
 -/
 namespace A2Verif.Drv.C12
@@ -40,6 +46,22 @@ def handle (toks : List String) : String :=
     match Hex.ofHex h with
     | some img => (iDetokNow img).cls
     | none => "bad-request"
+  | ["fatget", t, n, h] =>
+    match t.toNat?, n.toNat?, Hex.ofHex h with
+    | some typ, some k, some fat =>
+      match fatGet typ k fat with
+      | .ok v => "ok " ++ toString v
+      | .err => "err"
+      | .panic => "panic"
+    | _, _, _ => "bad-request"
+  | ["imd", h] =>
+    match Hex.ofHex h with
+    | some buf => (imdFromBytes buf).cls
+    | none => "bad-request"
+  | ["mg2", h, n, nib] =>
+    match Hex.ofHex h, n.toNat? with
+    | some hdr, some fileLen => (mg2FromBytes hdr fileLen (nib == "1")).cls
+    | _, _ => "bad-request"
   | ["woz2", h] =>
     match Hex.ofHex h with
     | some buf => (woz2FromBytesNow buf).cls
